@@ -37,7 +37,7 @@ TRUSTED_BASE = [
     "OCaml driver ocaml/driver.ml (hex<->Z, line protocol), OCaml 4.13.1",
     "Rust harness harness/src/*.rs (catch_unwind, line protocol) and rustc semantics of primitive integer operations",
     "hooks: #[cfg(fpdec_verif)] verif_hooks in fpdec-core (repo commit fbb9d73): one-line forwarders to the private kernels",
-    "translator tools/rs2v.py (Rust subset -> Gallina: 27 integer kernels of fpdec-core -> coq/gen/GenCore.v, 39 Decimal-level functions of src/ -> coq/gen/GenDec.v, 226 macro-generated integer-operand forms -> coq/gen/GenInt.v, regenerated on every run; "
+    "translator tools/rs2v.py (Rust subset -> Gallina: 27 integer kernels of fpdec-core -> coq/gen/GenCore.v, 39 Decimal-level functions of src/ -> coq/gen/GenDec.v, 226 macro-generated integer-operand forms -> coq/gen/GenInt.v, 20 integer conversions -> coq/gen/GenConv.v, regenerated on every run; "
     "syntax-directed, conventions listed in its header; assumes every variable holds a value in the range of its Rust type); "
     "the tie lemmas coq/proofs/GenTie*.v prove each translated function equal to the hand-written model",
     "structural tie: tools/fingerprint.py + tools/source_fingerprints.json (item-level digests of the Rust text the model was written from; updated by hand only)",
@@ -297,6 +297,7 @@ TIE_GROUPS = {
     "GenTieDecRem": ["rem", "Rem::rem", "CheckedRem::checked_rem"],
     # the integer-operand forms (macro-generated; macro items are never excused, the groups are built and reported)
     "GenTieIntAdd": [], "GenTieIntMul": [], "GenTieIntDiv": [], "GenTieIntRem": [], "GenTieIntCmp": [], "GenTieIntForms": [],
+    "GenTieConv": ["TryFrom_by_i128::try_from", "TryFrom_u128::try_from"],
 }
 
 
@@ -310,7 +311,7 @@ def tie_status():
     sh("timeout 900 make -k -j%d %s 2>&1" % (NPROC, targets), cwd=COQ, timeout=1000)
     ok_groups, proved = [], set()
     dec = st.get("dec", {})
-    translated = set(st.get("translated", [])) | set(dec.get("translated", [])) | set(st.get("int", {}).get("translated", []))
+    translated = set(st.get("translated", [])) | set(dec.get("translated", [])) | set(st.get("int", {}).get("translated", [])) | set(st.get("conv", {}).get("translated", []))
     for g, fns in TIE_GROUPS.items():
         rc, _ = sh("make -q proofs/%s.vo" % g, cwd=COQ)
         if rc == 0 and os.path.exists(os.path.join(COQ, "proofs", g + ".vo")):
@@ -321,7 +322,7 @@ def tie_status():
     for f, blocks in dec.get("impl_blocks", {}).items():
         for impl, b in blocks.items():
             impl_ok[(f, impl)] = bool(b["fns"]) and b["consts"] == 0 and all(k in proved for k in b["fns"])
-    untr = dict(st.get("failed", {})); untr.update(dec.get("failed", {})); untr.update(st.get("int", {}).get("failed", {}))
+    untr = dict(st.get("failed", {})); untr.update(dec.get("failed", {})); untr.update(st.get("int", {}).get("failed", {})); untr.update(st.get("conv", {}).get("failed", {}))
     return (proved, impl_ok), dict(translated=sorted(translated), untranslatable=untr,
                                    missing=st.get("missing", []) + dec.get("missing", []), tie_files_checked=ok_groups,
                                    tie_files_broken=[g for g in TIE_GROUPS if g not in ok_groups])
